@@ -168,7 +168,7 @@ def _prune_cache(keep):
 
 def _extract_one(args):
     src, out, fl = args
-    cmd = [MEMFACTS, '-o', out, '--root', REPO + '/', '--root', os.path.join(VERIF, 'drivers') + '/', src, '--'] + fl
+    cmd = [MEMFACTS, '-o', out, '--root', REPO + '/', '--root', os.path.join(VERIF, 'drivers') + '/', '--root', os.path.join(VERIF, 'fixtures') + '/', src, '--'] + fl
     p = subprocess.run(cmd, stdout=subprocess.PIPE, stderr=subprocess.STDOUT, text=True)
     ok = p.returncode == 0 and os.path.exists(out) and os.path.getsize(out) > 0
     return src, ok, p.stdout[-3000:]
